@@ -121,6 +121,7 @@ type World struct {
 	dbAddr         string
 	scnID          string
 	quiesceTimeout time.Duration
+	unserved       map[int]bool // peers whose instance stopped taking direct-channel messages
 	sentMark       int
 	barrierSeq     int
 	tampered       map[string]ipfslog.Entry
